@@ -538,7 +538,7 @@ SBuf::chop(size_type pos, size_type n)
     if (pos == npos || pos > length())
         pos = length();
 
-    if (n == npos || (pos+n) > length())
+    if (n == npos || n > length() - pos) // pos+n may wrap
         n = length() - pos;
 
     // if there will be nothing left, reset the buffer while we can
